@@ -62,11 +62,88 @@ type Case struct {
 	Observer bool        `json:"observer"`
 	Disrupt  string      `json:"disrupt,omitempty"` // PGO_DISRUPT_CONCURRENCY for the child
 	Heavy    bool        `json:"heavy_perturbation"`
+	Directed string      `json:"directed,omitempty"`
+}
+
+// Directed cases: opposite / cyclic acquisition orders over managers whose timeout setting is 0 or
+// negative (alone, and next to a manager with a positive timeout), so that "a section that cannot get
+// access aborts instead of blocking" is exercised for those settings in every run.
+const directedBase = 1000
+
+func genDirected(seed int64, idx int, mode string) Case {
+	variant := idx - directedBase
+	rng := rand.New(rand.NewSource(seed*6151 + int64(idx)*389))
+	c := Case{Idx: idx, Mode: mode, Seed: seed, Observer: variant%2 == 0}
+	type spec struct {
+		name  string
+		nctx  int
+		vars  []VarSpec
+		order func(ci int) []int // managers touched by context ci, in order
+	}
+	specs := []spec{
+		{"opposite-orders-timeout-0", 2, []VarSpec{{Kind: kindList, Cells: 1, Wrap: "direct"}, {Kind: kindList, Cells: 1, Wrap: "direct"}},
+			func(ci int) []int { return [][]int{{0, 1}, {1, 0}}[ci%2] }},
+		{"cyclic-orders-timeout-0-wrapped", 3, []VarSpec{{Kind: kindList, Cells: 1, Wrap: "incmap"}, {Kind: "fn", Cells: 2, Wrap: "persistent"}, {Kind: kindReg, Cells: 1, Wrap: "incmap+persistent"}},
+			func(ci int) []int { return [][]int{{0, 1, 2}, {1, 2, 0}, {2, 0, 1}}[ci%3] }},
+		{"zero-timeout-pair-next-to-positive-timeout", 4, []VarSpec{{Kind: kindList, Cells: 1, Wrap: "direct", TimeoutMs: 3}, {Kind: kindList, Cells: 1, Wrap: "direct"}, {Kind: kindList, Cells: 1, Wrap: "incmap"}},
+			func(ci int) []int { return [][]int{{1, 2}, {2, 1}, {0, 1}, {0}}[ci%4] }},
+		{"opposite-orders-negative-timeout", 2, []VarSpec{{Kind: kindList, Cells: 1, Wrap: "direct", TimeoutMs: -1}, {Kind: kindReg, Cells: 1, Wrap: "direct", TimeoutMs: -1}},
+			func(ci int) []int { return [][]int{{0, 1}, {1, 0}}[ci%2] }},
+	}
+	sp := specs[variant%len(specs)]
+	c.Directed = sp.name
+	c.NCtx = sp.nctx
+	c.Vars = sp.vars
+	per := 40
+	if mode == "race" {
+		per = 15
+	}
+	for ci := 0; ci < c.NCtx; ci++ {
+		var plan []Section
+		for k := 0; k < per; k++ {
+			var s Section
+			for _, v := range sp.order(ci) {
+				op := Op{K: "a", V: v}
+				switch c.Vars[v].Kind {
+				case kindReg:
+					op.K = "w"
+				case "fn":
+					op.J = 1 + rng.Intn(c.Vars[v].Cells)
+				}
+				if rng.Intn(5) == 0 && op.K == "a" {
+					op.K = "r"
+				}
+				s.Ops = append(s.Ops, op)
+			}
+			if rng.Intn(10) == 0 {
+				s.FaultAttempts, s.FaultKind, s.FaultPos = 1, "body", rng.Intn(len(s.Ops)+1)
+			}
+			plan = append(plan, s)
+		}
+		c.Plans = append(c.Plans, plan)
+		c.Sections += len(plan)
+	}
+	return c
 }
 
 var timeoutChoices = []int{1, 1, 2, 2, 3, 5, 8, 13, 21, 50}
 
+// pickTimeout draws a lock-timeout setting in ms. 0 (what the raft bootstraps pass when the YAML has no
+// sharedResourceTimeout key) and a negative value are ordinary settings: "try once, abort if taken".
+func pickTimeout(rng *rand.Rand, nonPositiveOneIn int) int {
+	if rng.Intn(nonPositiveOneIn) == 0 {
+		if rng.Intn(3) == 0 {
+			return -1
+		}
+		return 0
+	}
+	return timeoutChoices[rng.Intn(len(timeoutChoices))]
+}
+
 func genCase(seed int64, idx int, mode string, thorough bool) Case {
+	if idx >= directedBase {
+		return genDirected(seed, idx, mode)
+	}
 	rng := rand.New(rand.NewSource(seed*7919 + int64(idx)*104729 + int64(len(mode))))
 	c := Case{Idx: idx, Mode: mode, Seed: seed}
 	c.NCtx = 2 + rng.Intn(7)
@@ -77,7 +154,7 @@ func genCase(seed int64, idx int, mode string, thorough bool) Case {
 			c.NAcct = 3
 		}
 	}
-	base := timeoutChoices[rng.Intn(len(timeoutChoices))]
+	base := pickTimeout(rng, 7)
 	maxTO := 0
 	for v := 0; v < nMgr; v++ {
 		vs := VarSpec{Kind: kindList, Cells: 1, TimeoutMs: base}
@@ -100,7 +177,7 @@ func genCase(seed int64, idx int, mode string, thorough bool) Case {
 			vs.Wrap = "incmap+persistent"
 		}
 		if rng.Intn(5) == 0 {
-			vs.TimeoutMs = timeoutChoices[rng.Intn(len(timeoutChoices))]
+			vs.TimeoutMs = pickTimeout(rng, 4)
 		}
 		if vs.TimeoutMs > maxTO {
 			maxTO = vs.TimeoutMs
@@ -264,6 +341,7 @@ type ctxState struct {
 	held      atomic.Uint64 // managers acquired in the current attempt (bit set)
 	callSeq   int64
 	finished  atomic.Bool
+	goid      atomic.Int64 // id of the goroutine running this context (to find its state in a dump)
 }
 
 type faultRes struct {
@@ -697,6 +775,11 @@ func newWorld(c Case, db *badger.DB) (*world, []*distsys.MPCalContext) {
 	for i := 0; i < c.NCtx; i++ {
 		st := &ctxState{idx: i, plan: c.Plans[i], rng: rand.New(rand.NewSource(c.Seed*131 + int64(c.Idx)*17 + int64(i))), lastK: -1, flt: &faultRes{}}
 		st.maxTries = int32(4*len(st.plan) + 60)
+		for _, vs := range c.Vars {
+			if vs.TimeoutMs <= 0 { // "try once": failed attempts cost next to nothing, allow many of them
+				st.maxTries = int32(30*len(st.plan) + 300)
+			}
+		}
 		w.states = append(w.states, st)
 		cfg := []distsys.MPCalContextConfigFn{distsys.EnsureArchetypeRefParam("flt", st.flt)}
 		for v, rt := range w.vars {
@@ -881,13 +964,26 @@ func (w *world) buildHistory(secs, aborts []*rawSec, samples []rawSample, final 
 
 // ---- running one case -----------------------------------------------------------------------------------
 
+// SharerSnap is what the monitor knows about one running sharer from H8 events (and, after a dump, the
+// state of its goroutine).
+type SharerSnap struct {
+	Ctx           int    `json:"ctx"`
+	Goid          int64  `json:"goroutine"`
+	Parked        int64  `json:"parked_in_tryEnsureLock_call"` // 0: not inside tryEnsureLock without the lock
+	Rounds        int    `json:"canary_rounds_in_that_call"`
+	WaitMgr       int    `json:"waiting_for_manager"`
+	WaitTimeoutUs int64  `json:"timeout_setting_of_that_manager_us"`
+	Held          []int  `json:"holds_managers"`
+	State         string `json:"goroutine_state,omitempty"`
+	InCycle       bool   `json:"deadlocked"`
+}
+
 type DeadlockInfo struct {
-	BlockedNoTimeout int              `json:"sharers_blocked_without_timeout"`
-	Goroutines       string           `json:"goroutines,omitempty"`
-	Ticks            int              `json:"canary_ticks_without_change"`
-	TimeoutMs        int              `json:"tick_period_ms"`
-	Sharers          []map[string]any `json:"sharers"`
-	ProgressSeen     int64            `json:"progress_events_before"`
+	BlockedNoTimeout int          `json:"sharers_blocked_without_timeout"`
+	Running          int          `json:"running_sharers"`
+	Goroutines       string       `json:"goroutines,omitempty"`
+	TimeoutMs        int          `json:"canary_period_ms"`
+	Sharers          []SharerSnap `json:"sharers"`
 }
 
 type Result struct {
@@ -999,28 +1095,109 @@ func inLocalShared(frames []string, depth int) bool {
 	return false
 }
 
-// sharersBlockedWithoutTimeout inspects the goroutines that run MPCalContext.Run: how many are blocked
-// inside localshared.go in a channel operation without a timeout alternative, and how many wait there
-// in a select (the timed acquisition).
-func sharersBlockedWithoutTimeout() (blocked, timed int, dump string) {
-	dump = allStacks()
+func curGoid() int64 {
+	buf := make([]byte, 64)
+	buf = buf[:runtime.Stack(buf, false)]
+	f := strings.Fields(string(buf))
+	if len(f) >= 2 {
+		n, _ := strconv.ParseInt(f[1], 10, 64)
+		return n
+	}
+	return 0
+}
+
+// deadlockedSet decides, from the H8 snapshot and a goroutine dump, which sharers can never run again:
+// the largest set S of sharers such that every member
+//   - has been inside one and the same tryEnsureLock call for >= preRounds canary rounds,
+//   - is blocked there (its goroutine runs MPCalContext.Run, top frames in localshared.go) WITHOUT a timeout
+//     alternative: a plain channel operation, or a select on a manager whose timeout setting is <= 0 —
+//     with such a setting the code's expiry case is ready at once, so a goroutine that is parked in that
+//     select has no expiry case (Go >= 1.23 runs an expired channel timer when the select starts),
+//   - waits for a manager that (H8 acquire events of the current attempts) is held by a member of S.
+//
+// Nobody outside S can release those locks, nobody inside S can run: a deadlock, decided without
+// reference to any duration. Sets state / InCycle in snaps; returns the indices of S.
+func deadlockedSet(snaps []SharerSnap, dump string) []int {
+	gs := map[string]gInfo{}
 	for _, g := range parseGoroutines(dump) {
+		gs[g.id] = g
+	}
+	in := make([]bool, len(snaps))
+	for i := range snaps {
+		sn := &snaps[i]
+		sn.InCycle = false
+		g, ok := gs[strconv.FormatInt(sn.Goid, 10)]
+		if !ok {
+			continue
+		}
+		sn.State = g.state
+		if sn.Parked == 0 || sn.Rounds < preRounds || !inLocalShared(g.frames, 4) {
+			continue
+		}
 		isSharer := false
 		for _, f := range g.frames {
 			if strings.Contains(f, "distsys.(*MPCalContext).Run") {
 				isSharer = true
 			}
 		}
-		if !isSharer || !inLocalShared(g.frames, 4) {
+		if !isSharer {
 			continue
 		}
-		if untimedBlock(g.state) {
-			blocked++
-		} else if g.state == "select" {
-			timed++
+		in[i] = untimedBlock(g.state) || (g.state == "select" && sn.WaitTimeoutUs <= 0)
+	}
+	for changed := true; changed; {
+		changed = false
+		for i := range snaps {
+			if !in[i] {
+				continue
+			}
+			held := false
+			for j := range snaps {
+				if j == i || !in[j] {
+					continue
+				}
+				for _, m := range snaps[j].Held {
+					if m == snaps[i].WaitMgr {
+						held = true
+					}
+				}
+			}
+			if !held {
+				in[i], changed = false, true
+			}
 		}
 	}
-	return
+	var out []int
+	for i := range snaps {
+		if in[i] {
+			snaps[i].InCycle = true
+			out = append(out, i)
+		}
+	}
+	return out
+}
+
+func deadlockKey(d *DeadlockInfo) (string, string) {
+	var members []string
+	zero := false
+	for _, sn := range d.Sharers {
+		if sn.InCycle {
+			members = append(members, fmt.Sprintf("ctx %d [%s] holds %v waits for manager %d (timeout setting %d us)", sn.Ctx, sn.State, sn.Held, sn.WaitMgr, sn.WaitTimeoutUs))
+			if sn.State == "select" {
+				zero = true
+			}
+		}
+	}
+	key := "C07:deadlock:all-sharers-parked-in-tryEnsureLock"
+	if d.BlockedNoTimeout < d.Running {
+		key = "C07:deadlock:wait-for-cycle-of-sharers-parked-in-tryEnsureLock"
+	}
+	how := "a channel operation that has no timeout alternative"
+	if zero {
+		how = "the acquisition select of a manager whose timeout setting is <= 0 (the expiry case would have been ready at once: the select has no expiry case)"
+	}
+	return key, fmt.Sprintf("%d of %d running sharers are blocked inside tryEnsureLock in %s, each waiting for a variable held by another of them: they block forever instead of aborting: %s",
+		d.BlockedNoTimeout, d.Running, how, strings.Join(members, "; "))
 }
 
 // observerBlockedInAcquire: the GetState observer is blocked in the untimed acquire().
@@ -1067,6 +1244,7 @@ func runCase(c Case, scratch string) *Result {
 		go func(i int, ctx *distsys.MPCalContext) {
 			defer wg.Done()
 			defer w.states[i].finished.Store(true)
+			w.states[i].goid.Store(curGoid())
 			defer func() {
 				if e := recover(); e != nil {
 					buf := make([]byte, 4096)
@@ -1134,12 +1312,34 @@ func runCase(c Case, scratch string) *Result {
 	var ticks atomic.Int64
 	if !w.light {
 		go func() {
-			lastSig, lastProg, stable, idle := "", int64(-1), 0, 0
+			lastProg, idle, round := int64(-1), 0, 0
+			sameFor := make([]int, len(w.states))
+			lastParked := make([]int64, len(w.states))
 			stallLimit := 600
 			if maxTO < 10*time.Millisecond {
 				stallLimit = 4000
 			}
 			nCanary := 1
+			snapshot := func() []SharerSnap {
+				var out []SharerSnap
+				for i, st := range w.states {
+					if st.finished.Load() {
+						continue
+					}
+					sn := SharerSnap{Ctx: st.idx, Goid: st.goid.Load(), Parked: st.parked.Load(), Rounds: sameFor[i], WaitMgr: -1}
+					if sn.Parked != 0 {
+						sn.WaitMgr = int(st.parkedMgr.Load())
+						sn.WaitTimeoutUs = int64(w.vars[sn.WaitMgr].mgr.VerifTimeout() / time.Microsecond)
+					}
+					for m := range w.vars {
+						if st.held.Load()&(1<<uint(m)) != 0 {
+							sn.Held = append(sn.Held, m)
+						}
+					}
+					out = append(out, sn)
+				}
+				return out
+			}
 			for {
 				select {
 				case <-stopMon:
@@ -1148,79 +1348,67 @@ func runCase(c Case, scratch string) *Result {
 				}
 				canaries(nCanary, maxTO)
 				ticks.Add(1)
-				live, allParked := 0, true
-				var sb strings.Builder
-				var heldByParked uint64
-				var waited []int32
-				for _, st := range w.states {
+				round++
+				live, cands, minSame := 0, 0, 1<<30
+				for i, st := range w.states {
 					if st.finished.Load() {
+						sameFor[i] = 0
 						continue
 					}
 					live++
 					p := st.parked.Load()
-					if p == 0 {
-						allParked = false
+					if p != 0 && p == lastParked[i] {
+						sameFor[i]++
 					} else {
-						heldByParked |= st.held.Load()
-						waited = append(waited, st.parkedMgr.Load())
+						sameFor[i] = 0
 					}
-					fmt.Fprintf(&sb, "%d:%d;", st.idx, p)
+					lastParked[i] = p
+					if sameFor[i] >= preRounds {
+						cands++
+					}
+					if sameFor[i] < minSame {
+						minSame = sameFor[i]
+					}
 				}
 				nCanary = live
-				// wait-for shape: every parked sharer waits for a manager that (by the H8 acquire events of
-				// the current attempts) is held by a sharer that is itself parked
-				for _, m := range waited {
-					if heldByParked&(1<<uint(m)) == 0 {
-						allParked = false
-					}
-				}
 				prog := w.progress.Load()
-				if live > 0 && allParked && sb.String() == lastSig && prog == lastProg {
-					stable++
-				} else {
-					stable = 0
-				}
 				if prog == lastProg {
 					idle++
 				} else {
 					idle = 0
 				}
-				lastSig, lastProg = sb.String(), prog
-				if stable >= preRounds && stable%preRounds == 0 {
-					// The H8 shape has persisted. Decide logically, not by duration: is every running sharer
-					// blocked on the lock channel WITHOUT a timeout alternative (a plain channel operation inside
-					// localshared.go)? Then nobody who could release a lock can ever run again. Sharers that sit
-					// in the timed select are merely late (timer / scheduler stalls of the machine): not decided.
-					blocked, timed, dump := sharersBlockedWithoutTimeout()
-					if blocked == live && timed == 0 {
+				lastProg = prog
+				if live > 0 && minSame == deadlockTicks {
+					timerStalls.Add(1) // everybody has been in one call for that long, yet not decided below: waits are timed
+				}
+				if cands >= 1 && round%preRounds == 0 {
+					// Some sharers have been inside one tryEnsureLock call for a while. Decide logically, not by
+					// duration (see deadlockedSet); sharers waiting in a select that has a live expiry case are
+					// merely late (timer / scheduler stalls of the machine) and are never decided.
+					snaps := snapshot()
+					dump := allStacks()
+					if s1 := deadlockedSet(snaps, dump); len(s1) > 0 {
 						canaries(nCanary, maxTO)
-						blocked2, timed2, _ := sharersBlockedWithoutTimeout()
-						var sb2 strings.Builder
-						for _, st := range w.states {
-							if !st.finished.Load() {
-								fmt.Fprintf(&sb2, "%d:%d;", st.idx, st.parked.Load())
+						for i, st := range w.states { // same calls still?
+							if p := st.parked.Load(); p != 0 && p == lastParked[i] && !st.finished.Load() {
+								sameFor[i]++
+							} else {
+								sameFor[i] = 0
 							}
 						}
-						if blocked2 == live && timed2 == 0 && sb2.String() == lastSig && w.progress.Load() == prog {
-							d := &DeadlockInfo{Ticks: stable, TimeoutMs: int(maxTO / time.Millisecond), ProgressSeen: prog, Goroutines: dump, BlockedNoTimeout: blocked}
-							for _, st := range w.states {
-								if st.finished.Load() {
-									continue
-								}
-								var held []int
-								for m := range w.vars {
-									if st.held.Load()&(1<<uint(m)) != 0 {
-										held = append(held, m)
-									}
-								}
-								d.Sharers = append(d.Sharers, map[string]any{"ctx": st.idx, "parked_in_tryEnsureLock_call": st.parked.Load(),
-									"waiting_for_manager": st.parkedMgr.Load(), "holds_managers": held})
-							}
-							monCh <- verdict{deadlock: d}
+						snaps2 := snapshot()
+						dump2 := allStacks()
+						s2 := deadlockedSet(snaps2, dump2)
+						same := len(s1) == len(s2)
+						for k := 0; same && k < len(s1); k++ {
+							a, b := snaps[s1[k]], snaps2[s2[k]]
+							same = a.Ctx == b.Ctx && a.Parked == b.Parked && a.WaitMgr == b.WaitMgr
+						}
+						if same {
+							monCh <- verdict{deadlock: &DeadlockInfo{BlockedNoTimeout: len(s2), Running: len(snaps2), Goroutines: dump2,
+								TimeoutMs: int(maxTO / time.Millisecond), Sharers: snaps2}}
 							return
 						}
-					} else if stable == deadlockTicks {
-						timerStalls.Add(1)
 					}
 				}
 				if idle >= stallLimit {
@@ -1291,10 +1479,8 @@ func runCase(c Case, scratch string) *Result {
 	case v := <-monCh:
 		if v.deadlock != nil {
 			res.Deadlock = v.deadlock
-			res.Violations = append(res.Violations, Violation{Key: "C07:deadlock:all-sharers-parked-in-tryEnsureLock",
-				Desc: fmt.Sprintf("every running sharer (%d) is blocked inside tryEnsureLock in a channel operation that has no timeout alternative, each waiting for a variable held by another such sharer (H8 shape unchanged across %d lock-timeout periods of %d ms, no section began, committed or aborted): sections block forever instead of aborting",
-					v.deadlock.BlockedNoTimeout, v.deadlock.Ticks, v.deadlock.TimeoutMs),
-				Witness: map[string]any{"oracle": "deadlock", "deadlock": v.deadlock}})
+			key, desc := deadlockKey(v.deadlock)
+			res.Violations = append(res.Violations, Violation{Key: key, Desc: desc, Witness: map[string]any{"oracle": "deadlock", "deadlock": v.deadlock}})
 		} else {
 			res.Stalled = v.stalled
 		}
